@@ -29,10 +29,10 @@ EXPLANATION = ('Decides for all inputs that enabling glam-assert never changes a
                '2e-4 tolerance along operation chains depends on accumulated rounding and is not decided.')
 LEVEL_NOTE = 'Decides "assertions never change results", the presence/operands of documented assertions and that producers / internal callers meet the preconditions exactly in real arithmetic; not rounding accumulation against the tolerances. Trusted: rustc MIR, intrinsic table.'
 
-PAIRS_QUICK = [('sse2', 'assert'), ('scalar', 'scalar-assert'), ('coresimd', 'coresimd-assert'), ('neon', 'neon-assert'), ('wasm32', 'wasm32-assert')]
+PAIRS_QUICK = [('sse2', 'assert'), ('sse2-dbg', 'dbg-glam-assert'), ('scalar', 'scalar-assert'), ('coresimd', 'coresimd-assert'), ('neon', 'neon-assert'), ('wasm32', 'wasm32-assert')]
 POST_QUICK = ['sse2', 'scalar', 'coresimd', 'neon', 'wasm32']
 POST_THOROUGH = ['sse2', 'scalar', 'coresimd', 'neon', 'wasm32']
-PAIRS_THOROUGH = [('sse2', 'assert'), ('scalar', 'scalar-assert'), ('coresimd', 'coresimd-assert'), ('neon', 'neon-assert'), ('wasm32', 'wasm32-assert')]
+PAIRS_THOROUGH = [('sse2', 'assert'), ('sse2-dbg', 'dbg-glam-assert'), ('scalar', 'scalar-assert'), ('coresimd', 'coresimd-assert'), ('neon', 'neon-assert'), ('wasm32', 'wasm32-assert')]
 
 
 def doc_promises():
